@@ -30,6 +30,12 @@ def cases(seed, tier, broken=()):
         if out[-1]["tiny"]:
             out[-1]["standardize"] = bool(i % 2 == 0) or out[-1]["standardize"]
             out[-1]["scale"] = min(out[-1]["scale"], 1.0)
+    cross = [c for c in RECON if zoo.takes_two(c) and "Hilbert" not in c]
+    for i in range(max(6, n // 6)):
+        out.append({"kind": "recon", "cls": cross[i % len(cross)], "mseed": int(rng.integers(0, 2**31)), "center": True,
+                    "standardize": bool(i % 2), "use_coslat": False, "weights": False, "scale": float(10.0 ** int(rng.integers(-3, 4))),
+                    "alpha": [float(rng.choice([0.0, 0.5, 1.0])), float(rng.choice([0.0, 0.25, 0.5, 0.75]))], "use_pca": bool(i % 3 == 2),
+                    "struct": "DA", "tiny": False, "collinear": True})
     for i in range(n):
         cls = EXACT_BOTH[i % len(EXACT_BOTH)]
         out.append({"kind": "tfinv", "cls": cls, "mseed": int(rng.integers(0, 2**31)), "standardize": bool(rng.random() < 0.5),
@@ -79,9 +85,13 @@ def _data(case, cls, n=24, ny=3, nx=4, nx2=3):
             # only where standardisation brings it back to O(1)
             X.values[:, -1, -1] = field(1, 1, 5.0).values[:, 0, 0]
             if case.get("standardize"):
-                Y.values[:, 0, 1] = Y.values[:, 0, 1] * 1e-9
+                # stays above the 1.2e-7 floor at which standardisation clips (below it the cell counts as constant)
+                Y.values[:, 0, 1] = Y.values[:, 0, 1] * min(1.0, max(1e-9, 1e-5 / sc))
             else:
                 X.values[:, 0, 0] = X.values[:, 0, 0] * 1e9
+        if case.get("collinear"):
+            # exactly collinear features in the field that must be restored: its covariance is rank deficient
+            Y.values[:, -1, -1] = Y.values[:, 0, 0] + 0.5 * Y.values[:, 1, 0]
         WY = None
         if case.get("weights"):
             WY = xr.DataArray(rng.uniform(0.3, 2.5, size=(ny, nx2)), dims=("lat", "lon"), coords={"lat": Y.lat, "lon": Y.lon})
